@@ -35,20 +35,35 @@ def inputs():
     return {"two-chains-pro": two, "neutral": neutral}
 
 
-def parse_pqr(text):
-    """independent reader of pdb2pqr's output (fixed or whitespace layout): fields from the right"""
+def parse_pqr(text, ws=None):
+    """independent reader of pdb2pqr's output: fixed columns for the default layout, tokens from the right for the
+    whitespace layout (ws=None: decide per line by trying the columns first)"""
     atoms = []
     for ln in text.split("\n"):
         if not ln.startswith(("ATOM", "HETATM")):
             continue
-        w = ln.split()
         typ = "HETATM" if ln.startswith("HETATM") else "ATOM"
+        cols_ok = False
+        if not ws and len(ln) >= 69:
+            try:
+                rec = {"type": typ, "name": ln[12:16].strip(), "resname": ln[16:20].strip(), "chain": ln[21:22].strip(),
+                       "resseq": ln[22:26].strip(), "x": ln[30:38].strip(), "y": ln[38:46].strip(), "z": ln[46:54].strip(),
+                       "q": ln[54:62].strip(), "r": ln[62:69].strip()}
+                [float(rec[k]) for k in ("x", "y", "z", "q", "r")]
+                int(rec["resseq"])
+                cols_ok = ws is False or ln[11:12] == " "
+            except ValueError:
+                cols_ok = False
+        if cols_ok:
+            atoms.append(rec)
+            continue
+        w = ln.split()
         if w[0] not in ("ATOM", "HETATM"):
             w = [typ, w[0][len(typ):]] + w[1:]
         x, y, z, q, r = w[-5:]
         mid = w[4:-5]          # [chain] resseq
         chain = mid[0] if len(mid) == 2 else ""
-        atoms.append({"type": typ, "name": w[2], "resname": w[3], "chain": chain, "resseq": mid[-1],
+        atoms.append({"type": typ, "name": w[2], "resname": w[3], "chain": chain, "resseq": mid[-1] if mid else "",
                       "x": x, "y": y, "z": z, "q": q, "r": r})
     return atoms
 
@@ -75,7 +90,7 @@ def _work(job):
             if e.get("e") == "stage" and e["kind"] == "exit":
                 pass
         res.append({"ok": r["ok"], "exc": r["exc_type"], "msg": str(r["exc"])[:160] if r["exc"] else "",
-                    "dig": getattr(tr, "stage_digests", {}), "atoms": parse_pqr(open(out).read()) if r["ok"] else [],
+                    "dig": getattr(tr, "stage_digests", {}), "atoms": parse_pqr(open(out).read(), ws="--whitespace" in job[f"args{k}"]) if r["ok"] else [],
                     "nterm": 0})
     shutil.rmtree(wd, ignore_errors=True)
     return res
